@@ -516,6 +516,20 @@ func (env *SpecEnv) eval(e ast.Expr) TV {
 					return TV{p, types.NewPointer(p.Elem)}
 				}
 			}
+			// &x.f: address of a field of the struct x points to
+			if sel, ok := x.X.(*ast.SelectorExpr); ok {
+				base := env.eval(sel.X)
+				if bp, ok := base.V.(*PtrV); ok {
+					if stt, ok := under(bp.Elem).(*types.Struct); ok {
+						for i := 0; i < stt.NumFields(); i++ {
+							if stt.Field(i).Name() == sel.Sel.Name {
+								fp := ex.fieldAddr(env.st, bp, i)
+								return TV{fp, types.NewPointer(fp.Elem)}
+							}
+						}
+					}
+				}
+			}
 			tool("spec: unsupported expression %s", exprString(e))
 		}
 		v := env.eval(x.X)
